@@ -1445,7 +1445,8 @@ impl ErasedNode for Node {
         if !was_necessary {
             self.became_necessary(state);
         }
-        if let Some(Kind::Expert(expert)) = self.kind() {
+        // the callback belongs to the edge of an expert *parent*
+        if let Some(Kind::Expert(expert)) = p.kind() {
             expert.run_edge_callback(child_index)
         }
     }
